@@ -155,6 +155,37 @@ theorem min_eq (l : List FV) : mathMin l = Spec.min l := by
       rw [min2_posInf a h', foldNaN_eq goMin Spec.min2 goMin_eq min2_cases (b :: rest) a h']
       simp [h', List.any_cons, List.foldl_cons]
 
+theorem convertedLoop_eq (l : List FV) (h : l.dropLast.any isNaN = false) : convertedLoop l = l.length := by
+  induction l with
+  | nil => rfl
+  | cons v rest ih =>
+    cases rest with
+    | nil => by_cases hv : isNaN v = true <;> simp [convertedLoop, hv]
+    | cons w rest' =>
+      simp only [List.dropLast_cons₂, List.any_cons, Bool.or_eq_false_iff] at h
+      simp only [convertedLoop, h.1, Bool.false_eq_true, if_false] at ih ⊢
+      rw [ih h.2]; simp; omega
+
+/-- C13.maxmin_tonumber_partial — Math.max/min call ToNumber on every argument (§15.8.2.11–12: "calls
+    ToNumber on each of the arguments") provided no argument other than the last converts to NaN.
+    (Full statement `maxMinConverted l = l.length` for all l is false: Dev maxmin_tonumber_skipped.) -/
+theorem maxmin_tonumber_partial (l : List FV) (h : l.dropLast.any isNaN = false) :
+    maxMinConverted l = Spec.maxMinConverted l := by
+  match l with
+  | [] => rfl
+  | [a] => rfl
+  | a :: b :: rest =>
+    have := convertedLoop_eq (a :: b :: rest) h
+    simp only [List.dropLast_cons₂, List.any_cons, Bool.or_eq_false_iff] at h
+    simp only [convertedLoop, h.1, Bool.false_eq_true, if_false] at this
+    simp only [maxMinConverted, h.1, Bool.false_eq_true, if_false, Spec.maxMinConverted]
+    exact this
+
+/-- Dev maxmin_tonumber_skipped witness: Math.max(NaN, o) never calls o.valueOf -/
+example : maxMinConverted [.nan, one] ≠ Spec.maxMinConverted [.nan, one] := by decide
+/-- non-vacuity of the hypothesis -/
+example : ([one, zero, .nan] : List FV).dropLast.any isNaN = false := by decide
+
 /-! ## atan2 (§15.8.2.5) -/
 
 /-- C13.atan2_table — on every argument pair for which §15.8.2.5 fixes the result, otto returns it -/
@@ -185,19 +216,17 @@ theorem atan2_table (L : Lib) (y x r : FV) (h : Spec.atan2Table y x = some r) : 
 /-! ## pow (§15.8.2.13) -/
 
 /-- C13.pow_table_partial — §15.8.2.13 for y NaN, y = ±0, x NaN, x = +∞ (any y) and x, y both infinite:
-    otto returns the tabulated result, except Math.pow(1, NaN) (Dev pow_one_nan).
+    otto returns the tabulated result.
     (Full statement, not proved: the same for every (x, y) with `Spec.powTable x y = some r`; the
     remaining bullets — finite x with y = ±∞, x = −∞ with finite y, x = ±0, and x < 0 with non-integer y —
     are covered by the correspondence harness only; `isOddInt_eq` is the lemma they need.) -/
 theorem pow_table_partial (L : Lib) (x y r : FV) (hy : IsDouble y)
     (hcase : isNaN y = true ∨ isZero y = true ∨ isNaN x = true ∨ x = .inf false ∨ (isInf x = true ∧ isInf y = true))
-    (hdev : ¬(eqNum x one = true ∧ isNaN y = true))
     (h : Spec.powTable x y = some r) : mathPow L x y = r := by
   cases y with
   | nan =>
-    have hx : eqNum x one = false := by simpa [isNaN] using hdev
     simp [Spec.powTable, isNaN] at h; subst h
-    simp [mathPow, goPow, isInf, isZero, isNaN, hx]
+    simp [mathPow, isNaN]
   | inf t =>
     cases x with
     | nan => simp [Spec.powTable, isNaN, isZero] at h; subst h; simp [mathPow, goPow, isInf, isZero, isNaN, abs, one]
@@ -209,7 +238,7 @@ theorem pow_table_partial (L : Lib) (x y r : FV) (hy : IsDouble y)
     by_cases hn : n = 0
     · subst hn
       simp [Spec.powTable, isNaN] at h; subst h
-      simp [mathPow, goPow, isInf]
+      simp [mathPow, goPow, isInf, isNaN]
     · cases x with
       | nan =>
         simp [Spec.powTable, isNaN, hn] at h; subst h
@@ -228,9 +257,6 @@ theorem pow_table_partial (L : Lib) (x y r : FV) (hy : IsDouble y)
               simp [mathPow, goPow, isInf, isNaN, isZero, hn, abs, h1, one, zero]
         · simp [isNaN, isInf, hn] at hcase
       | fin s m e => simp [isNaN, isInf, hn] at hcase
-
-/-- Dev pow_one_nan witness: Math.pow(1, NaN) -/
-example : mathPow Driverless.lib one .nan ≠ .nan := by decide
 
 /-! ## encodeURI / encodeURIComponent / decodeURIComponent (§15.1.3) -/
 
@@ -278,22 +304,18 @@ example : ∀ r ∈ [97, 37, 43, 0xE9, 0x20AC, 0x1F600, 0x10FFFF], Scalar r := b
 
 /-! ## escape / unescape (§B.2.1–2) -/
 
-/-- C13.escape_roundtrip — for every string of BMP characters (held, as otto holds it, as the Go string
-    `encodeRunes rs`), unescape(escape(s)) = s. -/
-theorem escape_roundtrip (rs : List Nat) (h : ∀ r ∈ rs, BMP r) :
+/-- C13.escape_roundtrip — for every well-formed string s (any Unicode scalar values, incl. characters
+    outside the BMP; held, as otto holds it, as the Go string `encodeRunes rs`), unescape(escape(s)) = s. -/
+theorem escape_roundtrip (rs : List Nat) (h : ∀ r ∈ rs, Scalar r) :
     unescape (.go (escape (.go (encodeRunes rs)))) = encodeRunes rs := by
-  simp only [unescape, escape, SV.string]
-  rw [escape_unescape_runes rs h _ (Nat.le_refl _)]
+  simp only [unescape, escape, SV.string, bytesOfUnits]
+  rw [escape_unescape_units rs h _ _ (Nat.le_refl _) (Nat.le_refl _), utf16Decode_encode rs h]
 
-/-- non-vacuity: "aé€ %" is a BMP string -/
-example : ∀ r ∈ [97, 0xE9, 0x20AC, 32, 37], BMP r := by simp [BMP]
+/-- non-vacuity: "aé€ %@" and U+1F600 are scalar values -/
+example : ∀ r ∈ [97, 0xE9, 0x20AC, 32, 37, 64, 0x1F600], Scalar r := by simp [Scalar]
 
 /-! ## Dev witnesses (kernel-checked; each is replayed on the real code by the harness) -/
 
-/-- round_half_add: 0.49999999999999994 + 0.5 rounds to 1 -/
-example : encode (mathRound (.fin false (2^53-1) (-54))) ≠ encode (Spec.round (.fin false (2^53-1) (-54))) := by decide +kernel
-/-- round_half_add: 2^52+1 + 0.5 is a tie, rounds to even -/
-example : encode (mathRound (.fin false (2^52+1) 0)) ≠ encode (Spec.round (.fin false (2^52+1) 0)) := by decide +kernel
 /-- exp_overflow_early: at x = 709.5 (< Overflow = 709.78…) the amd64 test already overflows, so the model
     (like the real code) answers +∞ whatever the library computes -/
 example : expOverflowAmd64 (decode 0x40862C0000000000) = true ∧ gt (decode 0x40862C0000000000) expOverflowConst = false := by
@@ -303,14 +325,8 @@ example : logFrexpAmd64 1 (-1074) ≠ .fin false 1 (-1074) := by decide
 /-- atan2_underflow: Math.atan2(-5e-324, -2) is +π; §15.8.2.5 has y<0 ⇒ result < 0 -/
 example : encode (mathAtan2 Driverless.lib (decode 0x8000000000000001) (decode 0xC000000000000000)) = encode pi := by
   decide +kernel
-/-- escape_at -/
-example : unitsOfBytes (escape (.go [64])) ≠ Spec.escape [64] := by decide
-/-- escape_astral: U+1F600 -/
-example : unitsOfBytes (escape (.go [0xF0, 0x9F, 0x98, 0x80])) ≠ Spec.escape (unitsOfBytes [0xF0, 0x9F, 0x98, 0x80]) := by decide
-/-- unescape_nonascii: "é" -/
-example : unitsOfBytes (unescape (.go [0xC3, 0xA9])) ≠ Spec.unescape (unitsOfBytes [0xC3, 0xA9]) := by decide
-/-- unescape_surrogate: "%uD83D%uDE00" -/
-example : unitsOfBytes (unescape (.go [37,117,68,56,51,68,37,117,68,69,48,48])) ≠ Spec.unescape [37,117,68,56,51,68,37,117,68,69,48,48] := by decide
+/-- unescape_lone_surrogate: "%uD800" -/
+example : unitsOfBytes (unescape (.go [37,117,68,56,48,48])) ≠ Spec.unescape [37,117,68,56,48,48] := by decide
 /-- lone_surrogate_input -/
 example : unitsOfBytes (escape (.u16 [0xD800])) ≠ Spec.escape [0xD800] := by decide
 example : (decodeURI false (.u16 [0xD800])).map unitsOfBytes ≠ Spec.decodeURIComponent [0xD800] := by decide
